@@ -140,7 +140,9 @@ def gen_prog(rng, opts=None):
     nparams = rng.randint(1, 3)
     tys = ["int", "float"] + (["uint"] if opts.get("uint") else [])
     ptys = [rng.choice(tys) for _ in range(nparams)]
-    ret = rng.choice([t for t in ["int", "float"]])
+    ret = rng.choice(["int", "float"] + (["uint", "uint"] if opts.get("uint") else []))
+    if opts.get("uint") and rng.random() < .4:
+        ptys = ["uint"] * nparams; ret = "uint"          # inside the domain of C06_agree_uint
     stores = []
     for i, t in enumerate(ptys):
         if rng.random() < .3:
